@@ -1,9 +1,238 @@
 package main
 
-// placeholders filled in later in this file: C13.B1 (parsers) and C13.B4 (handleConn)
+// C13.B1 (raw frame parsers, sibling cross-check against one specification) and C13.B4
+// (the connection handler's reaction to a bad frame).
 
-func checkParsers(w *World, r *Report)             {}
-func checkHandleConnBadFrame(w *World, r *Report) {}
+import (
+	"fmt"
+	"go/types"
+	"sort"
+	"strings"
+
+	"golang.org/x/tools/go/ssa"
+)
+
+type parserSpec struct {
+	name   string
+	fn     *ssa.Function
+	endian string // "bigEndian" / "littleEndian"
+}
+
+func checkParsers(w *World, r *Report) {
+	var ps []parserSpec
+	if fn := w.Func("cmd/thermal-recorder", "convertRawBosonFrame"); fn != nil {
+		ps = append(ps, parserSpec{"Boson (little-endian)", fn, "littleEndian"})
+	}
+	if l3 := w.SSAPkgs["github.com/TheCacophonyProject/lepton3"]; l3 != nil {
+		if fn := l3.Func("ParseRawFrame"); fn != nil && len(fn.Blocks) > 0 {
+			ps = append(ps, parserSpec{"Lepton (big-endian)", fn, "bigEndian"})
+		}
+	}
+	// which parsers are actually selected: the functions returned by the parser selection
+	sel := w.Func("cmd/thermal-recorder", "frameParser")
+	selected := map[*ssa.Function]bool{}
+	if sel != nil {
+		for _, b := range sel.Blocks {
+			if ret, ok := b.Instrs[len(b.Instrs)-1].(*ssa.Return); ok {
+				v := ret.Results[0]
+				if ct, ok := v.(*ssa.ChangeType); ok {
+					v = ct.X
+				}
+				if fn, ok := v.(*ssa.Function); ok {
+					selected[fn] = true
+				}
+			}
+		}
+		for fn := range selected {
+			known := false
+			for _, p := range ps {
+				if p.fn == fn {
+					known = true
+				}
+			}
+			r.Check(known, "B1", "parser selected by the recorder is one of the two analysed parsers: "+fn.Name(), w.Pos(sel.Pos()), fn.String())
+		}
+	}
+	r.Check(len(ps) == 2, "G4", "both raw-frame parsers found", "-", fmt.Sprint(len(ps)))
+	for _, p := range ps {
+		checkOneParser(w, r, p)
+	}
+}
+
+func checkOneParser(w *World, r *Report, p parserSpec) {
+	e := newTermEnv(w)
+	fn := p.fn
+	// parameters by type: raw []byte, out *Frame, edge int
+	var out, edge, raw *ssa.Parameter
+	for _, pa := range fn.Params {
+		switch {
+		case typeIs(pa.Type(), "github.com/TheCacophonyProject/go-cptv/cptvframe", "Frame"):
+			out = pa
+		case isInteger(pa.Type()):
+			edge = pa
+		default:
+			if _, ok := pa.Type().Underlying().(*types.Slice); ok {
+				raw = pa
+			}
+		}
+	}
+	if out == nil || edge == nil || raw == nil {
+		r.Unknown("B1", p.name+": parameters", w.Pos(fn.Pos()), "signature is not (raw []byte, out *Frame, edge int)")
+		return
+	}
+	P := "cptvframe.Frame.Pix@" + e.termOf(out).String()
+	Y := "rangeidx(" + P + ")"
+	ROW := "index(" + P + ", " + Y + ")"
+	X := "rangeidx(" + ROW + ")"
+	E := e.termOf(edge).String()
+	PIX := "index(" + ROW + ", " + X + ")"
+	// (1) pixel stores
+	stores := 0
+	for _, a := range pixAccessesOf(fn) {
+		if !a.IsStore || a.Col == nil {
+			continue
+		}
+		stores++
+		addr := e.termOf(a.Addr).String()
+		r.Check(addr == "addr("+PIX+")", "B1", p.name+": pixel (y,x) of the output frame is stored for every y, x in row-major order", w.InstrPos(a.Instr), addr)
+		val := e.termOf(a.Val)
+		okv := val.Op == "call" && strings.HasSuffix(val.Name, "binary."+p.endian+".Uint16") && len(val.Args) == 2
+		detail := val.String()
+		if okv {
+			sl := val.Args[1]
+			// slice(rawpix, CUR, CUR+2), CUR advancing by 2 per pixel from 0, never reset per row
+			okv = sl.Op == "slice" && len(sl.Args) == 3 && sl.Args[1].Op == "iv" && sl.Args[1].Args[1].String() == "2" &&
+				strings.HasPrefix(sl.Args[1].Args[0].String(), "phi(0, loopvar:") && sl.Args[2].String() == tadd(sl.Args[1], tconst(2)).String()
+			if okv {
+				base := sl.Args[0].String()
+				okv = base == e.termOf(raw).String() || strings.HasPrefix(base, "slice("+e.termOf(raw).String()+", ")
+			}
+		}
+		r.Check(okv, "B1", p.name+": pixel = "+p.endian+" 16-bit word at a cursor advancing 2 bytes per pixel over the raw data", w.InstrPos(a.Instr), detail)
+	}
+	r.Check(stores == 1, "B1", p.name+": exactly one pixel store", w.Pos(fn.Pos()), fmt.Sprint(stores))
+	// (2) bad-frame returns
+	wantOr := []string{"lt(" + Y + ", " + E + ")", "lt(" + X + ", " + E + ")", "le((-1*" + E + " + len(" + P + ")), " + Y + ")", "le((-1*" + E + " + len(" + ROW + ")), " + X + ")"}
+	sort.Strings(wantOr)
+	badReturns, nilReturns := 0, 0
+	for _, b := range fn.Blocks {
+		ret, ok := b.Instrs[len(b.Instrs)-1].(*ssa.Return)
+		if !ok {
+			continue
+		}
+		v := unwrapIface(ret.Results[0])
+		if c, isC := v.(*ssa.Const); isC && c.Value == nil {
+			nilReturns++
+			continue
+		}
+		if al, isAl := v.(*ssa.Alloc); isAl && typeIs(al.Type(), "github.com/TheCacophonyProject/lepton3", "BadFrameErr") {
+			badReturns++
+			gs := e.guardsOf(b)
+			var zero, edgeG string
+			for _, g := range gs {
+				s := g.String()
+				if s == "eq(0, "+PIX+")" {
+					zero = s
+				}
+				if strings.HasPrefix(s, "not(or(") {
+					edgeG = s
+				}
+			}
+			r.Check(zero != "", "B1", p.name+": a bad frame is reported only for a zero pixel", w.InstrPos(ret), strings.Join(guardStrings(gs), " ; "))
+			gotOr := ""
+			if edgeG != "" {
+				for _, g := range gs {
+					if g.String() == edgeG {
+						var parts []string
+						for _, a := range g.Cond.Args {
+							parts = append(parts, a.String())
+						}
+						sort.Strings(parts)
+						gotOr = strings.Join(parts, " ∨ ")
+					}
+				}
+			}
+			r.Check(gotOr == strings.Join(wantOr, " ∨ "), "B1", p.name+": ...outside the border: not (y<e ∨ x<e ∨ y>=H-e ∨ x>=W-e)", w.InstrPos(ret), gotOr)
+			continue
+		}
+		// other error returns (telemetry) are fine but must not be BadFrameErr
+		r.Pass("B1", p.name+": other error return (telemetry) is not a bad-frame report", w.InstrPos(ret), e.termOf(ret.Results[0]).String())
+	}
+	r.Check(badReturns == 1 && nilReturns >= 1, "B1", p.name+": one bad-frame return and a success return", w.Pos(fn.Pos()), fmt.Sprintf("%d/%d", badReturns, nilReturns))
+	// (3) the zero test covers every interior pixel: the If on eq(0,pix) is reached on the false edge of the edge test, inside both loops
+	for _, b := range fn.Blocks {
+		iff, ok := b.Instrs[len(b.Instrs)-1].(*ssa.If)
+		if !ok || e.termOf(iff.Cond).String() != "eq(0, "+PIX+")" {
+			continue
+		}
+		gs := guardStrings(e.guardsOf(b))
+		ok2 := false
+		for _, g := range gs {
+			if strings.HasPrefix(g, "not(or(") {
+				ok2 = true
+			}
+		}
+		extra := 0
+		for _, g := range gs {
+			if !strings.HasPrefix(g, "not(or(") && !strings.HasPrefix(g, "lt(rangeidx(") && !strings.HasPrefix(g, "eq(nil, ") && !strings.HasPrefix(g, "eq(") {
+				extra++
+			}
+		}
+		r.Check(ok2 && extra == 0, "B1", p.name+": every interior pixel is tested for zero (no additional condition skips the test)", w.InstrPos(iff), strings.Join(gs, " ; "))
+	}
+}
+
+// checkHandleConnBadFrame: B4
+func checkHandleConnBadFrame(w *World, r *Report) {
+	ci := analyseHandleConn(w)
+	if ci.err != nil {
+		r.Unknown("B4", "recorder connection handler", "-", ci.err.Error())
+		return
+	}
+	e := newTermEnv(w)
+	// no return is dominated by the Process call: a Process error never ends the connection
+	pb := ci.process.Block()
+	okNoRet := true
+	for _, b := range ci.fn.Blocks {
+		if _, ok := b.Instrs[len(b.Instrs)-1].(*ssa.Return); ok && pb.Dominates(b) {
+			okNoRet = false
+		}
+		if _, ok := b.Instrs[len(b.Instrs)-1].(*ssa.Panic); ok && pb.Dominates(b) {
+			okNoRet = false
+		}
+	}
+	r.Check(okNoRet, "B4", "a Process error (bad frame) never ends the frame loop", w.InstrPos(ci.process), "")
+	// the loop continues: from the Process block the probe read is reachable
+	r.Check(reaches(pb, ci.probe.Block()) && inLoop(pb), "B4", "processing resumes with the next frame", w.InstrPos(ci.process), "")
+	// BadFrameErr recognised and camera restart requested
+	var ta *ssa.TypeAssert
+	if refs := ci.process.Referrers(); refs != nil {
+		for _, rf := range *refs {
+			if t, ok := rf.(*ssa.TypeAssert); ok && typeIs(t.AssertedType, "github.com/TheCacophonyProject/lepton3", "BadFrameErr") {
+				ta = t
+			}
+		}
+	}
+	if ta == nil {
+		r.Fail("B4", "the bad-frame error type is recognised", w.InstrPos(ci.process), "no type assertion of Process' result to *lepton3.BadFrameErr", "")
+		return
+	}
+	r.Pass("B4", "the bad-frame error type is recognised", w.InstrPos(ta), "")
+	okRestart := false
+	for _, b := range ci.fn.Blocks {
+		for _, in := range b.Instrs {
+			if c, ok := in.(*ssa.Call); ok && calleeName(c) == "leptondController.RestartCamera" {
+				gs := e.guardsOf(b)
+				for _, g := range gs {
+					if g.Pos && strings.HasPrefix(g.Cond.String(), "#1(lepton3.BadFrameErr(") {
+						okRestart = true
+					}
+				}
+			}
+		}
+	}
+	r.Check(okRestart, "B4", "a bad frame makes the recorder ask the camera daemon to restart the camera", w.InstrPos(ta), "")
+}
 
 func checkHandleConnMarker(w *World, r *Report, rule string) {
 	ci := analyseHandleConn(w)
